@@ -52,13 +52,15 @@ class CtorError(TartifletteError):
 
 SHARED_ERROR = None
 SHARED_PLAIN_ERROR = None
+SHARED_ERROR_2 = None
 
 
 def fresh_shared_errors():
     """one exception *object* that several resolvers / requests raise (a module-level constant in user code)"""
-    global SHARED_ERROR, SHARED_PLAIN_ERROR
+    global SHARED_ERROR, SHARED_PLAIN_ERROR, SHARED_ERROR_2
     SHARED_ERROR = UserError("shared dev message", user_message="shared user message", extensions={"code": "SHARED"})
     SHARED_PLAIN_ERROR = ValueError("shared plain error")
+    SHARED_ERROR_2 = UserError("second shared dev message", user_message="second shared user message", extensions={"code": "SHARED2"})
 
 
 fresh_shared_errors()
@@ -131,6 +133,10 @@ def make_resolver(fq):
                 from tartiflette.types.exceptions.tartiflette import MultipleException
                 raise MultipleException([UserError("dev-%d" % k, user_message="problem %d at %s" % (k, list(path)),
                                                    extensions={"code": "M%d" % k}) for k in range(3)])
+            if fault == "raise_multi_shared":
+                # several long-lived library errors reported at once by user code
+                from tartiflette.types.exceptions.tartiflette import MultipleException
+                raise MultipleException([SHARED_ERROR, SHARED_ERROR_2])
             if fault == "raise_te_enriched":
                 # a library error built without extensions, enriched in place before being raised (its own dict, it should think)
                 from tartiflette.types.exceptions import TartifletteError
